@@ -1,6 +1,7 @@
 package props
 
 import (
+	"regexp"
 	"context"
 	"fmt"
 	"sort"
@@ -89,8 +90,10 @@ func c14Concurrent(r *ev.Reporter) {
 			}
 			dropped := map[evP]int{}
 			for _, wmsg := range lg.Warns {
-				var e evP
-				if _, err := fmt.Sscanf(wmsg, "event queue is full, dropped event: {%d %d}", &e.P, &e.N); err == nil {
+				// the report names the event as {producer number}; wording and level do not matter
+				if m := evPToken.FindStringSubmatch(wmsg); m != nil {
+					var e evP
+					fmt.Sscanf(m[0], "{%d %d}", &e.P, &e.N)
 					dropped[e]++
 				}
 			}
@@ -148,3 +151,5 @@ func mcrtAvailable() bool {
 	})
 	return probe
 }
+
+var evPToken = regexp.MustCompile(`\{\d+ \d+\}`)
